@@ -9,7 +9,7 @@ CFG = apiprops.cfg("C05", ["C05_reference_offsets_valid", "C05_iter_spans_valid"
                    tiers=("t2", "run"),
                    corpus=["(?:(?=(\\1?a))aaa)+", "a|(?<=\\Ka)b", "(?!x)", "^|(?<=,)", "\\d*(?=é)", "(?<=é)", "(?<!€)\\b", "(?<=𝄞)|a", "\\G(?=é)", "(a)|\\1", "(?:\\1(a))+", "(?<=(?=é).)", ".(?<=é)", "(?<=\\Gé)", "\\K", "(?:)*+", "(\\1)"],
                    alpha=["a", "é", "€", "𝄞", ",", "\n"], extra_texts=["é", "a,é", "éé", "€é", "𝄞a𝄞", "aaaaaa", "aé€𝄞", ",é,", "é\n€"],
-                   assumptions=["PARTIAL: 'the compiled VM never reaches a panic site, reported slots are boundaries' is a theorem only for programs without Delegate instructions and patterns without conditionals / variable-length look-behind alternations; for the rest, and for SearchOK's start >= offset, it is validated (catch_unwind on every entry point, exact model tie); F-keepout-lb is a known finding"])
+                   assumptions=["PARTIAL: 'the compiled VM never reaches a panic site, reported slots are boundaries' is a theorem only for programs without Delegate instructions and patterns without conditionals; for the rest, and for SearchOK's start >= offset, it is validated (catch_unwind on every entry point, exact model tie); F-keepout-lb is a known finding"])
 
 
 def run(tier, seed, replay=None):
